@@ -78,6 +78,26 @@ def run(ctx):
         dist['separators_accepted'] += 1
         viol.append({'property': 'C07', 'kind': 'separator-accepted', 'codepoint': c,
                      'witness': {'password': 'abc' + chr(c) + 'def'}})
+    # 0b. through the real reader: no accepted password (plain or $HEX[] encoded) contains a line boundary or TAB
+    from lib_trainer.trainer_file_input import TrainerFileInput
+    rootr = common.scratch_dir('c07r')
+    seps = sorted(set(unicode_check.python_line_seps()) | {9, 0, 1, 0x1f})
+    lines = []
+    for c in seps:
+        body = ('ab' + chr(c) + 'cd').encode('utf-8', errors='surrogatepass')
+        lines.append(b'$HEX[' + body.hex().encode() + b']')
+        if c not in (10, 13):
+            lines.append(body)
+    pth = os.path.join(rootr, 'seps.txt')
+    with open(pth, 'wb') as f:
+        f.write(b'\n'.join(lines) + b'\nplain\n')
+    with contextlib.redirect_stdout(io.StringIO()):
+        accepted = list(TrainerFileInput(pth, 'utf-8').read_password())
+    cases += 1
+    for pw in accepted:
+        if any(ord(ch) in seps for ch in pw):
+            viol.append({'property': 'C07', 'kind': 'separator-accepted', 'codepoint': next(ord(ch) for ch in pw if ord(ch) in seps),
+                         'via': 'reader', 'witness': {'password': pw}})
     # 1. real writer -> real loaders, per encoding
     root = common.scratch_dir('c07')
     encs = ENCODINGS_QUICK if ctx.quick else ENCODINGS_THOROUGH
